@@ -263,17 +263,33 @@ def interrupted(code, N, fn):
     """Run fn() and raise Interrupt at the N-th 'line' event executed in frames of the code object `code` (N = 0: only
     count).  Deterministic: no signals, no wall clock.  -> (was it interrupted, line events seen, other exception or None)"""
     import sys
+    from .sched import cleanup_lines
     cnt = [0]
+    due = [False]
 
     def local(frame, event, arg):
         if event == "line":
             cnt[0] += 1
             if cnt[0] == N:
+                due[0] = True
+            # (never at the header line of a `with` or inside a `finally:` body - no real asynchronous exception lands between
+            #  a clean-up and the statement it belongs to, see sched.cleanup_lines: raised at the next line instead)
+            if due[0] and frame.f_lineno not in cleanup_lines(frame.f_code.co_filename):
+                due[0] = False
                 raise Interrupt()
         return local
 
     def glob(frame, event, arg):
-        return local if frame.f_code is code else None
+        if frame.f_code is code:
+            return local
+        # a private helper of the same module called directly by the traced function is part of it (a construction moved
+        # into a helper of its own is still the construction)
+        b = frame.f_back
+        nm = frame.f_code.co_name
+        if (b is not None and b.f_code is code and frame.f_code.co_filename == code.co_filename
+                and nm.startswith("_") and not nm.endswith("__")):
+            return local
+        return None
     old = sys.gettrace()
     sys.settrace(glob)
     try:
@@ -290,7 +306,8 @@ def interrupted(code, N, fn):
 
 def precompute_code():
     from register_crypto_plugin.ecdsa.ellipticcurve import PointJacobi
-    return PointJacobi._maybe_precompute.__code__
+    fn = getattr(PointJacobi, "_maybe_precompute", None) or PointJacobi.__mul__     # (the construction has another name: the
+    return fn.__code__                                                                #  whole multiplication is the region)
 
 
 # ------------------------------------------------------------------ jobs in fresh interpreters (histories)
